@@ -1,0 +1,245 @@
+// Copyright Amazon.com, Inc. or its affiliates. All Rights Reserved.
+//
+// Licensed under the Apache License, Version 2.0 (the "License");
+// you may not use this file except in compliance with the License.
+// You may obtain a copy of the License at
+//
+//      http://www.apache.org/licenses/LICENSE-2.0
+//
+// Unless required by applicable law or agreed to in writing, software
+// distributed under the License is distributed on an "AS IS" BASIS,
+// WITHOUT WARRANTIES OR CONDITIONS OF ANY KIND, either express or implied.
+// See the License for the specific language governing permissions and
+// limitations under the License.
+
+//go:build verif
+
+package escape
+
+// Verification hooks, compiled only with the build tag `verif`. They give an external harness
+//   - a knob that chooses which element of the block / function work queues is processed next,
+//   - a switch for the built-in per-instruction monotonicity self-check that collects instead of logging,
+//   - read access to per-block graphs, final summaries and single transfer steps,
+//   - renumbering-invariant hashes and seeded weakenings of escape graphs.
+// Nothing in this file is part of the shipped tool.
+
+import (
+	"fmt"
+	"hash/fnv"
+	"sort"
+
+	"golang.org/x/tools/go/ssa"
+)
+
+// VerifPick, when non-nil, chooses the work-queue element to process next. kind is 0 for the block
+// queue of one function and 1 for the function queue; n is the queue length; def is the index the
+// analysis takes today. It returns an index in [0,n).
+var VerifPick func(kind int, n int, def int) int
+
+func verifPickBlock(wl []*ssa.BasicBlock) {
+	if VerifPick == nil || len(wl) < 2 {
+		return
+	}
+	if i := VerifPick(0, len(wl), 0); i > 0 && i < len(wl) {
+		wl[0], wl[i] = wl[i], wl[0]
+	}
+}
+
+func verifPickFunc(wl []*functionAnalysisState) {
+	if VerifPick == nil || len(wl) < 2 {
+		return
+	}
+	last := len(wl) - 1
+	if i := VerifPick(1, len(wl), last); i >= 0 && i < last {
+		wl[last], wl[i] = wl[i], wl[last]
+	}
+}
+
+var verifMonoReport func(instr ssa.Instruction, reason string)
+
+func verifMonoViolation(instr ssa.Instruction, reason string) {
+	if verifMonoReport != nil {
+		verifMonoReport(instr, reason)
+	}
+}
+
+// VerifMonotonicity switches the per-instruction monotonicity self-check on or off, clears its cache and
+// installs a collector for the violations it finds.
+func VerifMonotonicity(on bool, report func(instr ssa.Instruction, reason string)) {
+	checkMonotonicityEveryInstruction = on
+	instructionMonoCheckData = map[ssa.Instruction][]cachedGraphMonotonicity{}
+	verifMonoReport = report
+}
+
+// VerifSummarized returns the functions that have a computed summary, in a deterministic order.
+func VerifSummarized(prog *ProgramAnalysisState) []*ssa.Function {
+	var out []*ssa.Function
+	for f, s := range prog.summaries {
+		if s.summaryType == "summarize" {
+			out = append(out, f)
+		}
+	}
+	sort.Slice(out, func(i, j int) bool { return out[i].String() < out[j].String() })
+	return out
+}
+
+// VerifOverflow reports whether the summary of f was abandoned because a graph grew too large.
+func VerifOverflow(prog *ProgramAnalysisState, f *ssa.Function) bool {
+	s := prog.summaries[f]
+	return s != nil && s.overflow
+}
+
+// VerifFinalGraph returns the summary graph of f (never mutated by the analysis).
+func VerifFinalGraph(prog *ProgramAnalysisState, f *ssa.Function) *EscapeGraph {
+	if s := prog.summaries[f]; s != nil {
+		return s.finalGraph
+	}
+	return nil
+}
+
+// VerifInitialGraph returns the graph on entry of f.
+func VerifInitialGraph(prog *ProgramAnalysisState, f *ssa.Function) *EscapeGraph {
+	if s := prog.summaries[f]; s != nil {
+		return s.initialGraph
+	}
+	return nil
+}
+
+// VerifBlockGraphs returns the graphs at the end of each block of f, indexed like f.Blocks (nil where none).
+func VerifBlockGraphs(prog *ProgramAnalysisState, f *ssa.Function) []*EscapeGraph {
+	s := prog.summaries[f]
+	if s == nil {
+		return nil
+	}
+	out := make([]*EscapeGraph, len(f.Blocks))
+	for i, b := range f.Blocks {
+		out[i] = s.blockEnd[b]
+	}
+	return out
+}
+
+// VerifReprocess re-applies the block transfer function to every block of every summarised function once
+// and reports the blocks whose end graph changed: none if the analysis stopped at a fixpoint.
+func VerifReprocess(prog *ProgramAnalysisState) []string {
+	var changed []string
+	for _, f := range VerifSummarized(prog) {
+		s := prog.summaries[f]
+		if s.overflow {
+			continue
+		}
+		for _, b := range f.Blocks {
+			if _, reached := s.blockEnd[b]; !reached {
+				continue
+			}
+			if s.ProcessBlock(b) {
+				changed = append(changed, fmt.Sprintf("%s block %d", f.String(), b.Index))
+			}
+		}
+	}
+	return changed
+}
+
+// VerifBlockInput rebuilds the graph on entry of block b of f (merge of the predecessors' end graphs).
+func VerifBlockInput(prog *ProgramAnalysisState, f *ssa.Function, b *ssa.BasicBlock) *EscapeGraph {
+	s := prog.summaries[f]
+	g := NewEmptyEscapeGraph(s.nodes)
+	if len(b.Preds) == 0 {
+		g.Merge(s.initialGraph)
+	} else {
+		for _, pred := range b.Preds {
+			if pg := s.blockEnd[pred]; pg != nil {
+				g.Merge(pg)
+			}
+		}
+	}
+	return g
+}
+
+// VerifTransfer applies the transfer function of one instruction of f to a copy of pre and returns the result.
+func VerifTransfer(prog *ProgramAnalysisState, f *ssa.Function, instr ssa.Instruction, pre *EscapeGraph) *EscapeGraph {
+	s := prog.summaries[f]
+	g := pre.Clone()
+	s.transferFunction(instr, g)
+	return g
+}
+
+// VerifEmptyLike returns an empty graph over the node group of g (the unit of Merge).
+func VerifEmptyLike(g *EscapeGraph) *EscapeGraph { return NewEmptyEscapeGraph(g.nodes) }
+
+// VerifSize returns the number of nodes and atomic edges of g.
+func VerifSize(g *EscapeGraph) (int, int) { return len(g.status), len(g.Edges(nil, nil, EdgeAll)) }
+
+func verifSortedNodes(g *EscapeGraph) []*Node {
+	ns := make([]*Node, 0, len(g.status))
+	for n := range g.status {
+		ns = append(ns, n)
+	}
+	sort.Slice(ns, func(i, j int) bool { return ns[i].number < ns[j].number })
+	return ns
+}
+
+// VerifWeaken returns a graph that is below g in the analysis' ordering: a seeded subset of g's nodes keeps a
+// status that is lowered towards the node's intrinsic status, and a seeded subset of the non-subnode edges is
+// dropped; the result is re-closed by merging it into an empty graph. choose(n) returns a number in [0,n).
+func VerifWeaken(g *EscapeGraph, choose func(n int) int) *EscapeGraph {
+	w := NewEmptyEscapeGraph(g.nodes)
+	for _, n := range verifSortedNodes(g) {
+		w.AddNode(n)
+		st := g.status[n]
+		if st > n.IntrinsicEscape() && choose(3) == 0 {
+			st = n.IntrinsicEscape()
+		}
+		w.MergeNodeStatus(n, st, g.rationales[n])
+	}
+	for _, src := range verifSortedNodes(g) {
+		dests := make([]*Node, 0, len(g.edges[src]))
+		for d := range g.edges[src] {
+			dests = append(dests, d)
+		}
+		sort.Slice(dests, func(i, j int) bool { return dests[i].number < dests[j].number })
+		for _, d := range dests {
+			mask := g.edges[src][d]
+			if mask&EdgeSubnode == 0 && choose(4) == 0 {
+				continue
+			}
+			w.AddEdge(src, d, mask)
+		}
+	}
+	return w
+}
+
+// VerifHash returns a hash of g that is invariant under renumbering of nodes: colour refinement over
+// (kind, debug label, status) with edge flags, three rounds.
+func VerifHash(g *EscapeGraph) uint64 {
+	if g == nil {
+		return 0
+	}
+	col := map[*Node]uint64{}
+	h := func(parts ...any) uint64 {
+		f := fnv.New64a()
+		fmt.Fprint(f, parts...)
+		return f.Sum64()
+	}
+	for n, st := range g.status {
+		col[n] = h(int(n.kind), "|", n.debugInfo, "|", int(st))
+	}
+	for round := 0; round < 3; round++ {
+		next := map[*Node]uint64{}
+		for n := range g.status {
+			var outs, ins []uint64
+			for d, m := range g.edges[n] {
+				outs = append(outs, h(col[d], int(m)))
+			}
+			sort.Slice(outs, func(i, j int) bool { return outs[i] < outs[j] })
+			_ = ins
+			next[n] = h(col[n], outs)
+		}
+		col = next
+	}
+	all := make([]uint64, 0, len(col))
+	for _, c := range col {
+		all = append(all, c)
+	}
+	sort.Slice(all, func(i, j int) bool { return all[i] < all[j] })
+	return h(all)
+}
